@@ -337,7 +337,8 @@ class ReaderView:
         # the decoder's argument: the receive buffer attribute itself.  A local (or a slice of one) that is *built from* an attribute of the
         # connection is a reader that keeps a cursor into a copy of the buffer: its clauses (rejoin, advance, progress) have another shape than
         # the rules know - not decided.  An argument that does not involve the connection's state at all stays with the rules (C03 reports it).
-        if a0 is not None and not (isinstance(a0, ast.Attribute) and isinstance(a0.value, ast.Name) and a0.value.id == "self"):
+        a0u = a0.args[0] if isinstance(a0, ast.Call) and isinstance(a0.func, ast.Name) and a0.func.id in ("bytes", "bytearray") and len(a0.args) == 1 else a0
+        if a0 is not None and not (isinstance(a0u, ast.Attribute) and isinstance(a0u.value, ast.Name) and a0u.value.id == "self"):
             seen, work, from_self = set(), [x.id for x in ast.walk(a0) if isinstance(x, ast.Name)], False
             if any(isinstance(x, ast.Attribute) and isinstance(x.value, ast.Name) and x.value.id == "self" for x in ast.walk(a0)):
                 from_self = True
